@@ -7,6 +7,7 @@
 //! behaviour on the way.
 //!
 //!   thread_world ga  <workload seed> <threads>    C05 / C06 / C08: sequential vs parallel evaluator
+//!   thread_world eval <workload seed> <threads>   C05 / C06: many direct Parallel::evaluate calls on small populations
 //!   thread_world aco <workload seed> <threads>    C19: Ant System update of a large colony
 //!   thread_world exp <workload seed> <threads>    C08 / C15: par_experiment, every run vs the run alone
 //!                                                  (writes under $THREAD_WORLD_DIR; needs -Zmiri-disable-isolation)
@@ -229,6 +230,62 @@ fn scenario_ga(seed: u64, threads: usize) -> Res {
     Ok(format!("{what}: {} objective calls per run", par.3))
 }
 
+/// Many evaluation calls per execution (the pool is started once): the narrow windows inside
+/// `Parallel::evaluate` get dozens of chances per schedule instead of three or four.
+fn scenario_eval(seed: u64, threads: usize) -> Res {
+    let mut g = Gen(seed ^ 0x6576616C);
+    let dim = 4 + g.below(3);
+    let rounds = 16;
+    let pool = rayon::ThreadPoolBuilder::new().num_threads(threads).build().map_err(|e| ("harness".to_string(), e.to_string()))?;
+    let problem = Bits::new(dim);
+    let mut state: State<Bits> = State::new();
+    let mut evaluator = Parallel::<Bits>::new();
+    let what = format!("{rounds} Parallel::evaluate calls on populations of 2..9 over {dim} bits on {threads} threads");
+    for round in 0..rounds {
+        let n = 2 + g.below(8);
+        let mut pop: Vec<mahf::Individual<Bits>> = (0..n)
+            .map(|i| {
+                // neighbours are often equal; all are unevaluated or carry a (correct) value
+                let x: Vec<bool> = (0..dim).map(|_| g.below(2) == 1).collect();
+                let _ = i;
+                mahf::Individual::new_unevaluated(x)
+            })
+            .collect();
+        if n > 2 && g.below(3) == 0 {
+            let c = pop[0].solution().clone();
+            pop[1] = mahf::Individual::new_unevaluated(c);
+        }
+        let before: Vec<Vec<bool>> = pop.iter().map(|i| i.solution().clone()).collect();
+        problem.log.lock().unwrap().clear();
+        let calls_before = problem.calls.load(Ordering::SeqCst);
+        pool.install(|| evaluator.evaluate(&problem, &mut state, &mut pop));
+        let calls = problem.calls.load(Ordering::SeqCst) - calls_before;
+        for (i, ind) in pop.iter().enumerate() {
+            if ind.solution() != &before[i] {
+                return bad("evaluation-changed-population", format!("{what}: round {round}: individual {i} changed"));
+            }
+            match ind.get_objective() {
+                None => return bad("evaluation-left-unevaluated", format!("{what}: round {round}: individual {i} of {n} is unevaluated after the evaluation")),
+                Some(o) if o.value().to_bits() != Bits::f(ind.solution()).to_bits() => {
+                    return bad("stale-objective", format!("{what}: round {round}: individual {i} carries {} but F = {}", o.value(), Bits::f(ind.solution())))
+                }
+                _ => {}
+            }
+        }
+        if calls != n {
+            return bad("evaluations-vs-calls", format!("{what}: round {round}: {n} individuals, the objective function was called {calls} times"));
+        }
+        let mut called: Vec<Vec<bool>> = problem.log.lock().unwrap().iter().map(|(x, _)| x.clone()).collect();
+        let mut expected = before.clone();
+        called.sort();
+        expected.sort();
+        if called != expected {
+            return bad("objective-calls-differ", format!("{what}: round {round}: the objective was not called exactly once per individual"));
+        }
+    }
+    Ok(what)
+}
+
 fn scenario_aco(seed: u64, threads: usize) -> Res {
     let mut g = Gen(seed ^ 0x61636F);
     let n = 4 + g.below(2);
@@ -402,6 +459,7 @@ fn main() {
     let threads: usize = args[3].parse().expect("threads");
     let r = match args[1].as_str() {
         "ga" => std::panic::catch_unwind(|| scenario_ga(seed, threads)),
+        "eval" => std::panic::catch_unwind(|| scenario_eval(seed, threads)),
         "aco" => std::panic::catch_unwind(|| scenario_aco(seed, threads)),
         "exp" => std::panic::catch_unwind(|| scenario_exp(seed, threads)),
         other => {
